@@ -850,8 +850,55 @@ EFFECTFUL = set()
 _EFFECT_FUNCS = set()
 
 
-def _has_effects(qn):
-    return qn in _EFFECT_FUNCS
+EFFECT_NAMES = {"random", "open", "sys", "os", "pathlib", "argparse", "input", "print", "time", "secrets", "uuid"}
+_EFFECT_CACHE = {}
+
+
+def _has_effects(qn, _stack=()):
+    """may the function (transitively) touch an external effect source?  Such functions are never folded
+    concretely (they are interpreted, so that the effect models see every call)."""
+    if qn in _EFFECT_FUNCS:
+        return True
+    if qn in _EFFECT_CACHE:
+        return _EFFECT_CACHE[qn]
+    if qn in _stack:
+        return False
+    parts = qn.split(".")
+    res = False
+    try:
+        for i in range(len(parts), 0, -1):
+            modname = ".".join(parts[:i])
+            if modname in sys.modules and isinstance(sys.modules[modname], types.ModuleType) and hasattr(sys.modules[modname], "__file__"):
+                break
+        mod = sys.modules[modname]
+        fd = SOURCE.funcdef(modname, ".".join(parts[i:]))
+        g = vars(mod)
+        for n in ast.walk(fd):
+            if isinstance(n, ast.Name):
+                if n.id in EFFECT_NAMES:
+                    res = True
+                    break
+                tgt = g.get(n.id)
+                if is_repo_func(tgt):
+                    if _has_effects(tgt.__module__ + "." + tgt.__qualname__, _stack + (qn,)):
+                        res = True
+                        break
+            elif isinstance(n, ast.Attribute) and isinstance(n.value, ast.Name) and n.value.id in ("cls", "self"):
+                # method of the same class
+                owner = ".".join(parts[i:-1])
+                cand = f"{modname}.{owner}.{n.attr}" if owner else None
+                if cand and cand != qn:
+                    try:
+                        SOURCE.funcdef(modname, f"{owner}.{n.attr}")
+                        if _has_effects(cand, _stack + (qn,)):
+                            res = True
+                            break
+                    except Undecided:
+                        pass
+    except Exception:
+        res = True
+    _EFFECT_CACHE[qn] = res
+    return res
 
 
 def lift_native(ctx, v):
